@@ -558,6 +558,18 @@ def main():
             "confidence level",
         )
 
+        # the .bandit file is held to the same range as -l/-i
+        if not (
+            1 <= args.severity <= max_count
+            and 1 <= args.confidence <= max_count
+        ):
+            LOG.error(
+                "Options level and confidence of the .bandit file must be "
+                "between 1 and %d",
+                max_count,
+            )
+            sys.exit(2)
+
         args.output_format = _log_option_source(
             parser.get_default("output_format"),
             args.output_format,
